@@ -133,8 +133,17 @@ def configured(v, work, stats, cases, rng, cap, checked):
 LIT = {"Integer": "1", "String": "\"s\""}
 
 
-def user_program(case, perms):
-    """one copy of the method per order of the keyword arguments (copy 0 = as written)"""
+EXPR = {"lit": {"Integer": "1", "String": "\"s\""},
+        "arith": {"Integer": "1 + 2", "String": "\"s\" + \"t\""},
+        "call": {"Integer": "\"s\".length", "String": "1.to_s"},
+        "not": {"Integer": "!hq_flag", "String": "!hq_flag"},
+        "or": {"Integer": "hq_nil || 1", "String": "hq_nil || \"s\""}}
+
+
+def user_program(case, perms, style="lit", keyrest=False):
+    """one copy of the method per order of the keyword arguments (copy 0 = as written).
+    style: how the keyword values are written (literal / arithmetic / call / negation / ||);
+    keyrest: the method also takes **opts (undeclared keywords are collected there) and returns opts.values"""
     ov = case["d"][0]
     params, names = [], []
     npos = 0
@@ -147,6 +156,9 @@ def user_program(case, perms):
             params.append("%s:" % p["key"]); names.append(p["key"])
         else:
             params.append("%s: 1" % p["key"]); names.append(p["key"])
+    if keyrest:
+        params.append("**opts")
+    pre = ["hq_flag = true", "hq_nil = nil"]
     lines = []
     block = None
     orders = [list(range(len(case["c"])))] + perms
@@ -155,26 +167,30 @@ def user_program(case, perms):
         lines.append("def um%d(%s)" % (j, ", ".join(params)))
         for n in names:
             lines.append("  dbtp %s" % n)
-        lines.append("  1")
+        if keyrest:
+            lines += ["  dbtp opts", "  dbtp opts.values", "  opts.values"]
+        else:
+            lines.append("  1")
         lines.append("end")
         args = []
         for i in order:
             a = case["c"][i]
-            e = LIT[a["ty"]["vs"][0]["c"]]
+            e = (EXPR[style] if a["key"] else EXPR["lit"])[a["ty"]["vs"][0]["c"]]
             args.append(("%s: %s" % (a["key"], e)) if a["key"] else e)
         lines.append("dbtp um%d(%s)" % (j, ", ".join(args)))
         block = len(lines) - start
-    return "\n".join(lines) + "\n", block, len(orders)
+    return "\n".join(pre + lines) + "\n", block, len(orders), len(pre)
 
 
 _COPY = re.compile(r"\bum\d+\b")
 
 
-def blocks_of(out, block, n):
+def blocks_of(out, block, n, skip=0):
     """output lines grouped per method copy, rows made relative, the copy's index removed"""
     per = [[] for _ in range(n)]
     other = []
     for kind, f, row, msg in C.parse_lines(out):
+        row -= skip
         if kind in ("d", "h") and 1 <= row <= block * n:
             j = (row - 1) // block
             per[j].append((kind, (row - 1) % block, _COPY.sub("um", msg)))
@@ -183,20 +199,21 @@ def blocks_of(out, block, n):
     return [sorted(p) for p in per], other
 
 
-def user_defined(v, work, stats, cases, rng, cap, checked):
+def user_defined(v, work, stats, cases, rng, cap, checked, style="lit", keyrest=False):
     jobs, meta = [], []
     for ci, c in enumerate(cases):
         perms = perms_of(c["c"], rng, cap)
-        text, block, n = user_program(c, perms)
+        text, block, n, skip = user_program(c, perms, style, keyrest)
         for args in (["t.rb"], ["t.rb", "-i"]):
             jobs.append({"files": {"t.rb": text}, "args": args})
-            meta.append((ci, block, n, perms))
+            meta.append((ci, block, n, perms, skip))
     wr = C.Runner(work, "worker")
     try:
         results = wr.run_many(jobs)
     finally:
         wr.close()
-    for (ci, block, n, perms), job, res in zip(meta, jobs, results):
+    variant = "%s%s" % (style, "+keyrest" if keyrest else "")
+    for (ci, block, n, perms, skip), job, res in zip(meta, jobs, results):
         c = cases[ci]
         if res.get("skipped"):
             v.count("skipped_jobs")
@@ -210,17 +227,20 @@ def user_defined(v, work, stats, cases, rng, cap, checked):
                 v.again(key)
             continue
         stats["runs"] += 1
-        per, _ = blocks_of(res["out"], block, n)
+        per, _ = blocks_of(res["out"], block, n, skip)
         for j in range(1, n):
             checked["user_defined_permutations"] += 1
             if per[j] == per[0]:
                 continue
-            key = "kw-order:user-defined:" + shape_key(c)
+            key = "kw-order:user-defined:" + ("" if variant == "lit" else variant + ":") + shape_key(c)
+            if style == "or":
+                # `k: n || 1` - the || evaluator hands the KeyValue under construction on: one mechanism, whatever the shape
+                key = "Dev_OrValueInKeywordArgument"
             if v.seen(key):
                 v.again(key)
                 break
             rr = C.confirm_alone(work, job, runs=1)[0]
-            per2, _ = blocks_of(rr.get("out") or "", block, n)
+            per2, _ = blocks_of(rr.get("out") or "", block, n, skip)
             if per2[j] == per2[0]:
                 v.count("not_reproduced_alone")
                 continue
@@ -243,5 +263,10 @@ def run(v, work, stats, tier, checked):
         conf_cases, user_cases = cases[:40000], cases[:12000]
     configured(v, work, stats, conf_cases, rng, cap, checked)
     user_defined(v, work, stats, user_cases, rng, cap, checked)
+    # the same against methods that also take **opts, and with keyword values written as expressions
+    nvar = 800 if tier == "quick" else 5000
+    for style, keyrest in (("lit", True), ("arith", False), ("call", True), ("not", False), ("or", False)):
+        sub = rng.sample(user_cases, min(nvar, len(user_cases)))
+        user_defined(v, work, stats, sub, rng, min(cap, 6), checked, style, keyrest)
     return {"keyword_universe_cases": len(cases), "configured_cases": len(conf_cases), "user_defined_cases": len(user_cases),
             "permutation_cap_per_call": cap}
